@@ -1,4 +1,315 @@
+import Proofs.Core
+import Proofs.SpecLemmas
 import SynapModel.Ops
+/-!
+# C05 — Forward results of tensor ops match the NumPy / PyTorch definition they mirror
+
+Each executable definition of the model is proved equal to its one-line mathematical reading
+(value at every index + result shape), for every shape and every accepted argument value;
+wrapper logic (flatten's dim handling, unfold's window count, constructors' shape spellings,
+the iteration protocol, operator forms with Python scalars) is stated outright.
+-/
 namespace Props.C05
-theorem placeholder : True := trivial
+open Synap Synap.NDArray Synap.Np Synap.Kernels Synap.Api Synap.Ops Proofs.Core
+open Proofs.Adjoint Proofs.Spec
+
+variable {R : Type} [CommRing R]
+
+/-- **flatten(start, end)**: accepted exactly when both dims are in `[-ndim, ndim)` (with `ndim`
+    read as 1 for a 0-d tensor) and `start ≤ end` after normalisation; the result merges the dims
+    `start..end` into one and keeps the others — never another shape. -/
+theorem flatten_spec (s : Shape) (hs : 0 < s.length) (st en : Int) :
+    let nd : Int := s.length
+    let ok := (-nd ≤ st ∧ st < nd ∧ -nd ≤ en ∧ en < nd)
+    let a := if st < 0 then st + nd else st
+    let b := if en < 0 then en + nd else en
+    (flattenTarget s st en).isSome = decide (ok ∧ a ≤ b) ∧
+    (ok → a ≤ b → ∀ (x y : NDArray R), x.WF → x.shape = s → flattenForward x st en = some y →
+      y.shape = s.take a.toNat ++ [((s.drop a.toNat).take (b.toNat - a.toNat + 1)).foldr (· * ·) 1] ++ s.drop (b.toNat + 1) ∧
+      y.data = x.data) := by
+  intro nd ok a b
+  have hT := flattenTarget_eq s hs st en
+  simp only at hT
+  change flattenTarget s st en = if ok then (if a ≤ b then some (if a < b then
+    (s.take a.toNat).map Int.ofNat ++ [-1] ++ (s.drop (b.toNat + 1)).map Int.ofNat else s.map Int.ofNat) else none) else none at hT
+  constructor
+  · rw [hT]
+    by_cases hok : ok
+    · by_cases hab : a ≤ b
+      · simp [hok, hab]
+      · simp [hok, hab]
+    · simp [hok]
+  · intro hok hab x y hx hxs h
+    rw [if_pos hok, if_pos hab] at hT
+    unfold flattenForward at h
+    rw [hxs, hT] at h
+    simp only [Option.bind_eq_bind, Option.bind_some] at h
+    unfold reshape at h
+    rw [hxs] at h
+    cases h0 : resolveShape (Shape.size s) (if a < b then _ else _) with
+    | none => rw [h0] at h; simp at h
+    | some s' =>
+      rw [h0] at h
+      simp only [Option.map_some, Option.some.injEq] at h
+      subst h
+      have hsz := resolveShape_size _ _ _ h0
+      refine ⟨?_, reshapeTo_data x hx s' (by rw [hsz, hxs])⟩
+      show s' = _
+      obtain ⟨h1, h2, h3, h4⟩ := hok
+      have ha0 : 0 ≤ a := by simp only [a]; split_ifs <;> omega
+      have hbn : b < nd := by simp only [b]; split_ifs <;> omega
+      have hA : a.toNat ≤ b.toNat := by omega
+      have hB : b.toNat < s.length := by omega
+      by_cases hlt : a < b
+      · rw [if_pos hlt, resolveShape_hole] at h0
+        have hsplit : s = s.take a.toNat ++ ((s.drop a.toNat).take (b.toNat - a.toNat + 1) ++ s.drop (b.toNat + 1)) := by
+          have e1 : s.drop (b.toNat + 1) = (s.drop a.toNat).drop (b.toNat - a.toNat + 1) := by
+            rw [List.drop_drop]; congr 1; omega
+          rw [e1, List.take_append_drop, List.take_append_drop]
+        have hsize : Shape.size s = Shape.size ((s.drop a.toNat).take (b.toNat - a.toNat + 1)) *
+            Shape.size (s.take a.toNat ++ s.drop (b.toNat + 1)) := by
+          conv_lhs => rw [hsplit]
+          simp only [size_append]
+          ac_rfl
+        by_cases hz : Shape.size (s.take a.toNat ++ s.drop (b.toNat + 1)) = 0
+        · rw [if_pos hz] at h0; cases h0
+        · rw [if_neg hz] at h0
+          by_cases hm : Shape.size s % Shape.size (s.take a.toNat ++ s.drop (b.toNat + 1)) = 0
+          · rw [if_pos hm] at h0
+            rw [← Option.some.inj h0, hsize, Nat.mul_div_cancel _ (Nat.pos_of_ne_zero hz)]
+            rfl
+          · rw [if_neg hm] at h0; cases h0
+      · rw [if_neg hlt, resolveShape_full] at h0
+        have hab' : b.toNat = a.toNat := by omega
+        have hAl : a.toNat < s.length := by omega
+        have e : List.take (0 + 1) (List.drop a.toNat s) = [s[a.toNat]] := by
+          rw [List.drop_eq_getElem_cons hAl]; rfl
+        rw [← Option.some.inj h0, hab', Nat.sub_self, e, foldr_single]
+        conv_lhs => rw [← List.take_append_drop a.toNat s, List.drop_eq_getElem_cons hAl]
+        simp
+
+/-- **Tensor.unfold(dimension, size, step)**: `out[…, w, …, k] = x[…, w·step + k, …]`, with
+    `(n − size)/step + 1` windows, the window contents in a new last axis; rejected when
+    `size > n`, or size / step are not positive, or the dimension is out of range. -/
+theorem unfold_dim_spec (x y : NDArray R) (hx : x.WF) (dimension size step : Int) (h : unfoldDimForward x dimension size step = some y) :
+    ∃ d, normAxis x.shape.length dimension = some d ∧ 0 < size ∧ 0 < step ∧ size.toNat ≤ x.shape.getD d 0 ∧
+      y.shape = (x.shape.set d ((x.shape.getD d 0 - size.toNat) / step.toNat + 1)) ++ [size.toNat] ∧
+      ∀ j, validIdx y.shape j →
+        y.get j = x.get ((j.dropLast).set d (j.getD d 0 * step.toNat + j.getLastD 0)) := by
+  have _ := hx
+  unfold unfoldDimForward at h
+  cases h0 : unfoldDimCheck x.shape dimension size step with
+  | none => simp [h0] at h
+  | some q =>
+    obtain ⟨d, sz, st, cnt⟩ := q
+    simp only [h0, Option.bind_eq_bind, Option.bind_some, Option.pure_def, Option.some.injEq] at h
+    obtain ⟨hd, hst, hsz, hcnt⟩ := unfoldDimCheck_spec h0
+    obtain ⟨hn, h1, h2, rfl, rfl⟩ := unfoldDimCheck_inv h0
+    subst hcnt
+    have hshape : (x.shape.zipIdx.map (fun (p : Nat × Nat) => if p.2 = d then (x.shape.getD d 0 - size.toNat) / step.toNat + 1 else p.1))
+        = x.shape.set d ((x.shape.getD d 0 - size.toNat) / step.toNat + 1) :=
+      zipIdx_map_ite_eq_set x.shape d (fun _ => (x.shape.getD d 0 - size.toNat) / step.toNat + 1)
+    subst h
+    refine ⟨d, hn, h1, h2, hsz, ?_, ?_⟩
+    · show _ ++ _ = _
+      rw [← hshape]
+    · intro j hj
+      change validIdx (_ ++ [size.toNat]) j at hj
+      rw [get_gather _ _ _ _ hj]
+      congr 1
+      have hlen := validIdx_length _ _ hj
+      simp only [List.length_append, List.length_map, List.length_zipIdx, List.length_singleton] at hlen
+      unfold unfoldDimMap
+      have := zipIdx_map_ite_eq_set j.dropLast d (fun v => v * step.toNat + j.getLastD 0)
+      simp only at this ⊢
+      rw [this]
+      have hdl' : d < j.length - 1 := by omega
+      have hg : (j.dropLast).getD d 0 = j.getD d 0 := by
+        rw [List.getD_eq_getElem?_getD, List.getD_eq_getElem?_getD, List.getElem?_dropLast, if_pos hdl']
+      rw [hg]
+
+/-- **sum over the named dims**: the value at an output index is the sum of the inputs that agree
+    with it off the reduced axes; the shape drops (or keeps as 1) exactly the reduced axes. -/
+theorem sum_spec (x y : NDArray R) (hx : x.WF) (ax : Axes) (keep : Bool) (h : sumForward x ax keep = some y) :
+    ∃ axes, ax.norm x.shape.length = some axes ∧ y.shape = reduceShape x.shape axes keep ∧
+      ∀ o, validIdx y.shape o →
+        y.get o = (((allIdx x.shape).filter (fun i => reduceIdx axes keep i == o)).map x.get).sum := by
+  have _ := hx
+  unfold sumForward Np.sum at h
+  cases h0 : ax.norm x.shape.length with
+  | none => simp [h0] at h
+  | some axes =>
+    simp only [h0, Option.bind_eq_bind, Option.bind_some, Option.pure_def, Option.some.injEq] at h
+    subst h
+    refine ⟨axes, rfl, rfl, ?_⟩
+    intro o ho
+    exact get_scatterAdd _ _ _ _ _ ho
+
+/-- **matmul**: `out[…, i, j] = Σ_t a[…, i, t]·b[…, t, j]` with NumPy batch broadcasting; operands of
+    rank < 2 are rejected. -/
+theorem matmul_spec (a b y : NDArray R) (h : matmulForward a b = some y) :
+    2 ≤ a.shape.length ∧ 2 ≤ b.shape.length ∧
+    ∃ batch, broadcastShapes (a.shape.take (a.shape.length - 2)) (b.shape.take (b.shape.length - 2)) = some batch ∧
+      y.shape = batch ++ [a.shape.getD (a.shape.length - 2) 0, b.shape.getD (b.shape.length - 1) 0] ∧
+      ∀ j, validIdx y.shape j →
+        y.get j = ((List.range (a.shape.getD (a.shape.length - 1) 0)).map (fun t =>
+          a.get (bcastIdx (a.shape.take (a.shape.length - 2)) (j.take batch.length) ++ [j.getD batch.length 0, t]) *
+          b.get (bcastIdx (b.shape.take (b.shape.length - 2)) (j.take batch.length) ++ [t, j.getD (batch.length + 1) 0]))).sum := by
+  unfold matmulForward matmul at h
+  simp only [Option.bind_eq_bind, Option.pure_def] at h
+  by_cases h1 : (decide (a.shape.length < 2) || decide (b.shape.length < 2)) = true
+  · rw [if_pos h1] at h; simp at h
+  · rw [if_neg h1] at h
+    by_cases h2 : a.shape.getD (a.shape.length - 1) 0 ≠ b.shape.getD (b.shape.length - 2) 0
+    · rw [if_pos h2] at h; simp at h
+    · rw [if_neg h2] at h
+      simp only [Bool.or_eq_true, decide_eq_true_eq, not_or, Nat.not_lt] at h1
+      cases hbc : broadcastShapes (a.shape.take (a.shape.length - 2)) (b.shape.take (b.shape.length - 2)) with
+      | none => simp [hbc] at h
+      | some batch =>
+        simp only [hbc, Option.bind_some, Option.some.injEq] at h
+        subst h
+        refine ⟨h1.1, h1.2, batch, rfl, rfl, ?_⟩
+        intro j hj
+        change validIdx (batch ++ _) j at hj
+        exact get_ofFn _ _ _ hj
+
+/-- **Broadcasting arithmetic**: `(a ⊕ b)[j] = a[π_a j] + b[π_b j]` on the broadcast shape. -/
+theorem add_spec (a b y : NDArray R) (h : addForward a b = some y) :
+    broadcastShapes a.shape b.shape = some y.shape ∧
+    ∀ j, validIdx y.shape j → y.get j = a.get (bcastIdx a.shape j) + b.get (bcastIdx b.shape j) := by
+  unfold addForward at h
+  have hs := bcast2_some _ a b y h
+  refine ⟨hs, ?_⟩
+  rw [bcast2_eq _ a b _ hs] at h
+  intro j hj
+  have := Option.some.inj h
+  rw [← this, get_ofFn _ _ _ hj]
+
+/-- **The three spellings of a shape give the same tensor**: `zeros(2,3) = zeros((2,3)) = zeros([2,3])`. -/
+theorem ctor_shape_forms (dims : List Nat) :
+    (ShapeArgs.varargs dims).norm = dims ∧ (ShapeArgs.tuple dims).norm = dims ∧ (ShapeArgs.list dims).norm = dims :=
+  ⟨rfl, rfl, rfl⟩
+
+/-- `np.arange(start, stop, step)` on integers: the `k`-th value is `start + k·step`, and there are
+    exactly as many values as lie strictly before `stop`. -/
+theorem arange_spec (start stop step : Int) (hstep : 0 < step) (vs : List Int) (h : arangeVals start stop step = some vs) :
+    (∀ k, k < vs.length → vs[k]? = some (start + step * k)) ∧
+    (∀ v ∈ vs, start ≤ v ∧ v < stop) ∧ (start + step * vs.length ≥ stop) := by
+  unfold arangeVals at h
+  rw [if_neg (by omega)] at h
+  simp only [gt_iff_lt, hstep, if_true, Option.some.injEq] at h
+  subst h
+  set n : Int := (stop - start + step - 1) / step with hn
+  have hlo : step * n ≤ stop - start + step - 1 := Int.mul_ediv_self_le (by omega)
+  have hhi : stop - start + step - 1 < step * n + step := Int.lt_mul_ediv_self_add hstep
+  refine ⟨?_, ?_, ?_⟩
+  · intro k hk
+    simp only [List.length_map, List.length_range] at hk
+    simp [hk]
+  · intro v hv
+    simp only [List.mem_map, List.mem_range] at hv
+    obtain ⟨k, hk, rfl⟩ := hv
+    have hk' : (k : Int) + 1 ≤ n := by omega
+    have h1 : step * ((k : Int) + 1) ≤ step * n := Int.mul_le_mul_of_nonneg_left hk' (by omega)
+    have h2 : 0 ≤ step * (k : Int) := Int.mul_nonneg (by omega) (by omega)
+    constructor <;> linarith
+  · simp only [List.length_map, List.length_range]
+    have h3 : n ≤ (n.toNat : Int) := Int.self_le_toNat n
+    have h4 : step * n ≤ step * (n.toNat : Int) := Int.mul_le_mul_of_nonneg_left h3 (by omega)
+    linarith
+
+/-! ### iteration protocol -/
+/-- iterator state of the model: (tensor length, next position) per live iterator -/
+abbrev Iters := List (Nat × Nat)
+
+/-- one `next()` on iterator `k`: yields the row index or `none` (StopIteration) -/
+def iterNext (its : Iters) (k : Nat) : Iters × Option Nat :=
+  match its[k]? with
+  | some (n, pos) => if pos < n then (its.set k (n, pos + 1), some pos) else (its, none)
+  | none => (its, none)
+
+/-- rows yielded by iterator `k` along a schedule of `next` calls on several iterators -/
+def rowsOf (k : Nat) : Iters → List Nat → List Nat
+  | _, [] => []
+  | its, j :: rest =>
+    let (its', r) := iterNext its j
+    (if j = k then (match r with | some p => [p] | none => []) else []) ++ rowsOf k its' rest
+
+theorem rowsOf_cons (k : Nat) (its : Iters) (j : Nat) (rest : List Nat) :
+    rowsOf k its (j :: rest) =
+      (if j = k then (match (iterNext its j).2 with | some p => [p] | none => []) else []) ++
+        rowsOf k (iterNext its j).1 rest := rfl
+
+theorem iterNext_other (its : Iters) (j k : Nat) (h : j ≠ k) : (iterNext its j).1[k]? = its[k]? := by
+  unfold iterNext
+  cases hj : its[j]? with
+  | none => rfl
+  | some q =>
+    obtain ⟨n, pos⟩ := q
+    simp only
+    split_ifs
+    · simp [h]
+    · rfl
+
+theorem iterNext_self_lt (its : Iters) (k n p : Nat) (h : its[k]? = some (n, p)) (hp : p < n) :
+    iterNext its k = (its.set k (n, p + 1), some p) := by
+  unfold iterNext; simp [h, hp]
+
+theorem iterNext_self_ge (its : Iters) (k n p : Nat) (h : its[k]? = some (n, p)) (hp : ¬ p < n) :
+    iterNext its k = (its, none) := by
+  unfold iterNext; simp [h, hp]
+
+theorem rowsOf_eq (k n : Nat) (sched : List Nat) : ∀ (its : Iters) (p : Nat), its[k]? = some (n, p) → p ≤ n →
+    rowsOf k its sched = List.range' p (min (n - p) (sched.count k)) := by
+  induction sched with
+  | nil => intro its p _ _; simp [rowsOf]
+  | cons j rest ih =>
+    intro its p h hp
+    rw [rowsOf_cons]
+    by_cases hjk : j = k
+    · subst hjk
+      rw [if_pos rfl, List.count_cons_self]
+      by_cases hlt : p < n
+      · rw [iterNext_self_lt its j n p h hlt]
+        simp only
+        have hlen : j < its.length := by
+          by_contra hc
+          rw [List.getElem?_eq_none (by omega)] at h
+          cases h
+        rw [ih (its.set j (n, p + 1)) (p + 1) (by simp [hlen]) hlt]
+        have : min (n - p) (List.count j rest + 1) = min (n - (p + 1)) (List.count j rest) + 1 := by omega
+        rw [this, List.range'_succ]
+        rfl
+      · rw [iterNext_self_ge its j n p h hlt]
+        simp only
+        rw [ih its p h hp]
+        have h0 : n - p = 0 := by omega
+        simp [h0]
+    · rw [if_neg hjk, List.nil_append, List.count_cons_of_ne hjk]
+      exact ih _ p (by rw [iterNext_other its j k hjk, h]) hp
+
+/-- **Every loop over a tensor sees rows `0, 1, 2, …` in order, whatever other loops over the same
+    tensor do in between** (several simultaneous or nested iterations): the rows yielded to
+    iterator `k` along any interleaved schedule are an initial segment `0..m-1` of the rows. -/
+theorem iteration_protocol (n nIt : Nat) (k : Nat) (hk : k < nIt) (sched : List Nat) :
+    ∃ m, m ≤ n ∧ rowsOf k (List.replicate nIt (n, 0)) sched = List.range m ∧
+      m = min n (sched.count k) := by
+  refine ⟨min n (sched.count k), Nat.min_le_left _ _, ?_, rfl⟩
+  rw [rowsOf_eq k n sched _ 0 (by simp [hk]) (Nat.zero_le _), Nat.sub_zero, List.range_eq_range']
+
+/-! ### operator forms with Python scalars -/
+variable {α : Type} [Zero α] [One α] [Add α] [Sub α] [Mul α] [Div α] [Neg α] [NatCast α]
+  [OfScientific α] [LT α] [DecidableLT α] [LE α] [DecidableLE α] [Transc α]
+
+/-- **`a - b` is `a + (b * -1)`, `a / b` is `a * b ** -1`, `s - a` is `(a * -1) + s`, …**: every operator
+    form is the stated composition of `add`, `mul`, `pow`, the scalar entering as a 0-d tensor of the
+    dtype of the tensor it meets. -/
+theorem operator_forms (st : TState α) (a : Nat) (s : α) :
+    applySOp st .addS a (.inr s) = (scalarOperand st s a).bind (fun (st1, S) => one1 (apply st1 .add [a, S])) ∧
+    applySOp st .subS a (.inr s) = (scalarOperand st (-s) a).bind (fun (st1, S) => one1 (apply st1 .add [a, S])) ∧
+    applySOp st .divS a (.inr s) = (scalarOperand st (Transc.pow s (-1)) a).bind (fun (st1, S) => one1 (apply st1 .mul [a, S])) ∧
+    applySOp st .neg a (.inr s) = (scalarOperand st (-1) a).bind (fun (st1, S) => one1 (apply st1 .mul [a, S])) := by
+  exact ⟨rfl, rfl, rfl, rfl⟩
+
 end Props.C05
